@@ -397,6 +397,26 @@ func (p *Path) assertCond(c *Term, label string) {
 // fault records a memory-safety style violation on the current (feasible) path and stops.
 func (p *Path) fault(format string, args ...interface{}) {
 	msg := fmt.Sprintf(format, args...)
+	// where: the chain of callers in the code under test (library and harness-runtime frames skipped)
+	chain := ""
+	n := 0
+	for f := p.cur; f != nil && n < 4; f = f.caller {
+		if f.fn == nil || f.fn.Pkg == nil {
+			continue
+		}
+		pp := f.fn.Pkg.Pkg.Path()
+		if pp == "sync/atomic" || strings.HasSuffix(pp, "/internal/vrt") {
+			continue
+		}
+		if chain != "" {
+			chain += " <- "
+		}
+		chain += f.fn.Name()
+		n++
+	}
+	if chain != "" {
+		msg += " [in " + chain + "]"
+	}
 	p.res.Asserts++
 	p.recordViolation("fault", msg, nil)
 	panic(pathAbort{abStop, "fault: " + msg})
